@@ -4,6 +4,7 @@ CHECK_DEADLOCK FALSE
 CONSTANTS
  HonorsHost = FALSE
  SchemeBound = TRUE
+ FoldCase = FALSE
  StripOnRedirect = TRUE
  MaxFaults = 2
  Confs <- MidGenConfs
@@ -12,3 +13,4 @@ CONSTANTS
  RedirTo <- CoreRedir
  TokReplies <- AllTok
  ForeignRealms <- TaRealm
+ LocTo <- AllLoc
